@@ -17,14 +17,16 @@ def fnv1a(name):
 
 
 def one_schema(args):
-    ctx_work, flatcc, rt_objs, seed, si, ncase = args
-    r = random.Random(seed * 100003 + si)
+    ctx_work, flatcc, rt_objs, seed, si, ncase = args[:6]
+    clone = len(args) > 6 and args[6]
+    r = random.Random(seed * 100003 + si + (7919 if clone else 0))
     tabs, uns = vtree.random_schema(r, 0.25)
     if si == -1:     # the recorded finding, deterministically: -0.0 given to a float field with default 0
         import fbenc
         tabs, uns = [[fbenc.fld(0, 0, "s", 4, 4), fbenc.fld(1, 0, "s", 8, 8)]], []
     ty = cgen.Typing(r, tabs, uns)
     P = cgen.Prog(ty)
+    P.clone = clone
     meta = []
     if si == -1:
         ty.ftype[(0, 0)] = dict(kind="scalar", t="float", default=0, optional=False)
@@ -38,14 +40,17 @@ def one_schema(args):
         ncase = 0
     for ci in range(ncase):
         g = vtree.Gen(r, tabs, uns, maxdepth=r.choice([2, 4, 5]), big=r.random() < 0.05)
+        # long offset / union vectors on a fresh builder: its stacks have to grow while a vector or one of its elements is open
+        fresh = r.random() < (0.3 if clone else 0.15)
+        if fresh: g.long_vectors = 0.4
         ti = r.randrange(len(tabs))
         try:
             t = g.table(ti, 0, False)
         except RecursionError:
             continue
         ws, typed, style, force = r.random() < 0.3, r.random() < 0.3, ci % 3, r.random() < 0.3
-        P.add_case(t, ti, ws, typed, style, force)
-        meta.append(dict(ti=ti, ws=ws, typed=typed, style=style, force=force))
+        P.add_case(t, ti, ws, typed, style, force, fresh)
+        meta.append(dict(ti=ti, ws=ws, typed=typed, style=style, force=force, fresh=fresh, shared=any(x == "r" for x in vtree.render(P.lowered[-1]))))
     d = os.path.join(ctx_work, "s%d" % si)
     os.makedirs(os.path.join(d, "gen"), exist_ok=True)
     open(os.path.join(d, "s.fbs"), "w").write(ty.fbs())
